@@ -9,6 +9,7 @@
 #include <cstring>
 #include <unistd.h>
 #include <map>
+#include <tuple>
 #include <unordered_map>
 
 #ifndef VERIF_TMP_ROOT
@@ -94,6 +95,7 @@ namespace mon
          const void* top_input = nullptr;
          std::vector< frame > frames;
          std::vector< aev > alog;      // transactional
+         std::vector< aev > rawlog;    // every invocation, never truncated
          long raw_actions = 0;
          std::vector< scope > scopes;  // transactional list of state scopes
          bool pos_reported = false;   // a position discrepancy was already reported in this run
@@ -458,6 +460,7 @@ namespace mon
             ob = std::size_t( f.a.p - R.base );
             oe = std::size_t( ( cursor ? cursor : f.a.p ) - R.base );
          }
+         if( R.rawlog.size() < 200000 ) R.rawlog.push_back( { vid, kind, fam, ob, oe, has_input, state_serial } );
          if( kind == ref::A_VETO || kind == ref::A_VETO0 ) {
             if( ref::veto_pred( vid, ob, oe, R.g->salt ) ) { f.vetoed = true; cell( "action:vetoed" ); return false; }
          }
@@ -474,6 +477,8 @@ namespace mon
       R.alog.push_back( { vid, kind, fam, ob, oe, has_input, state_serial } );
       return true;
    }
+
+
 
    void on_class_action( int id, const char* b, const char* e, int state_serial )
    {
@@ -498,6 +503,17 @@ namespace mon
    }
 
    int next_state_serial() noexcept { return ++R.state_serials; }
+
+   void on_coverage_counters( std::string_view rule, std::string_view branch, std::size_t start, std::size_t success, std::size_t failure, std::size_t unwind )
+   {
+      cell( branch.empty() ? "coverage:rule-entries" : "coverage:branch-entries" );
+      if( start ) cell( "coverage:entries-with-attempts" );
+      if( unwind ) cell( "coverage:entries-with-unwind" );
+      if( R.fuel_out ) return;
+      if( start != success + failure + unwind ) {
+         viol( "C08", std::string( "C08|coverage-counters-unbalanced|" ) + ( branch.empty() ? "rule" : "branch" ), "coverage counters of " + std::string( rule ) + ( branch.empty() ? std::string() : " / branch " + std::string( branch ) ) + ": start=" + std::to_string( start ) + " success=" + std::to_string( success ) + " failure=" + std::to_string( failure ) + " unwind=" + std::to_string( unwind ) );
+      }
+   }
 
    namespace
    {
@@ -941,7 +957,7 @@ namespace mon
             for( std::size_t cap = chunk; cap <= hi; ++cap ) {
                runreq sm = b;
                sm.maximum = cap - chunk;
-               sm.sched = int( cap % 3 == 0 ? 1 : 0 );
+               sm.sched = int( ( cap + input.size() ) % 7 );   // all reader schedules also meet the small buffers
                const obs o = observe( g, sm );
                const bool expect_overflow = need > cap;
                if( expect_overflow ) {
@@ -992,6 +1008,7 @@ namespace mon
          I.eolpol = cfg.eolpol;
          I.in = input;
          ref::ctx c0;
+         c0.act = !cfg.top_nothing;
          const ref::outcome ro = I.ev( g.top, 0, input.size(), c0 );
          if( I.loop || ro.st == ref::LOOP ) { cell( "skipped:reference-loop" ); return; }
 
@@ -1056,6 +1073,10 @@ namespace mon
             if( std::strcmp( g.prop, "C09" ) == 0 ) prop = "C09";
             viol( prop, std::string( prop ) + "|result-mismatch|" + topt, "result " + std::to_string( rs.st ) + " (" + rs.msg + rs.what + ") but the reference gives " + std::to_string( exp_st ) + ( ro.st == ref::RAISED ? " blaming " + std::string( vname( ro.blame ) ) : "" ) );
          }
+         else if( rs.st == 0 && cfg.top_nothing && rs.end_byte != 0 ) {
+            result_ok = false;
+            viol( "C01", "C01|top-level-failure-under-required-left-input-consumed|" + topt, "parse< ..., apply_mode::nothing, rewind_mode::required > failed with " + std::to_string( rs.end_byte ) + " bytes consumed" );
+         }
          else if( rs.st == 1 && rs.end_byte != ro.end ) {
             result_ok = false;
             viol( g.prop, std::string( g.prop ) + "|consumed-mismatch|" + topt, "consumed " + std::to_string( rs.end_byte ) + " bytes but the reference consumes " + std::to_string( ro.end ) );
@@ -1117,6 +1138,20 @@ namespace mon
                for( const auto* e : ex ) { if( n++ > 12 ) { want += " ..."; break; } want += " " + ( e->type == ref::E_ACT ? tmpl( vname( e->vid ) ) : "cls" + std::to_string( e->vid ) ) + "[" + std::to_string( e->b ) + "," + std::to_string( e->e ) + ")"; }
                viol( "C04", "C04|surviving-action-log|" + topt, "surviving action invocations:" + got + " ; reference derivation:" + want );
             }
+         }
+         // ---- C04: no action invocation that the documented expansion does not make (backtracked invocations included).
+         //      The real rules are optimised implementations and may attempt a sub-rule less often than the expansion, never more often.
+         if( result_ok && ( rs.st == 1 || rs.st == 0 ) ) {
+            std::map< std::tuple< int, std::size_t, std::size_t >, long > budget;
+            for( const auto& a : I.raw ) ++budget[ { a.vid, a.b, a.e } ];
+            for( const auto& a : R.rawlog ) {
+               if( a.vid < 0 ) continue;
+               if( --budget[ { a.vid, a.b, a.e } ] < 0 ) {
+                  viol( "C04", "C04|action-invoked-outside-the-documented-expansion|" + topt, "action of " + std::string( vname( a.vid ) ) + " invoked for [" + std::to_string( a.b ) + "," + std::to_string( a.e ) + ") more often than the documented expansion of the grammar matches that rule there with actions enabled (e.g. inside what the expansion evaluates as look-ahead)" );
+                  break;
+               }
+            }
+            cell( "actionlog:raw-invocations", long( R.rawlog.size() ) );
          }
          // ---- C13: surviving state scopes == reference scopes
          if( result_ok && rs.st == 1 ) {
@@ -1189,16 +1224,25 @@ namespace mon
             if( gi < 3 ) V.sample( "{\"grammar\":\"" + verif::jesc( g.text ) + "\",\"cell\":\"" + verif::jesc( g.cell ) + "\",\"analyze_problems\":" + std::to_string( problems ) + ",\"loop_witness\":\"" + verif::jesc( verif::show( witness ) ) + "\",\"inputs_tried\":" + std::to_string( tried ) + "}" );
             continue;
          }
+         const std::string prefixes( g.prefixes ? g.prefixes : "" );
+         const std::size_t npre = prefixes.empty() ? 1 : prefixes.size();
          input_enum en;
          en.alpha = alpha;
-         en.maxlen = pick_len( alpha.size(), cap );
-         std::string input;
+         en.maxlen = pick_len( alpha.size(), prefixes.empty() ? cap : ( V.thorough() ? 6000 : 1400 ) );
+         std::string input, body;
+         std::size_t pre = npre;   // index of the next mode selector to combine with `body`
          long n = 0;
          long nt = 0;
          verif::rng rnd( V.seed * 7919 + g.salt );
          const long nrandom = V.thorough() ? 400 : 60;
          for( ;; ) {
-            bool have = en.next( input );
+            bool have = true;
+            if( !prefixes.empty() ) {
+               // context-matrix grammars dispatch on a leading selector byte: every body string is tried under every selector
+               if( pre >= npre ) { have = en.next( body ); pre = 0; }
+               if( have ) { input = std::string( 1, prefixes[ pre ] ) + body; ++pre; }
+            }
+            else have = en.next( input );
             if( !have ) {
                if( n >= long( 1 ) << 30 ) break;
                // seeded random longer strings
@@ -1209,7 +1253,9 @@ namespace mon
                static const std::size_t special[] = { 63, 64, 65, 127, 128, 129, 4095, 4096, 4097, 8192 };
                const std::size_t len = ( cfg.buf && rcount <= 10 ) ? special[ rcount - 1 ] : en.maxlen + 1 + rnd.below( 24 );
                input.clear();
+               if( !prefixes.empty() ) input.push_back( prefixes[ rnd.below( prefixes.size() ) ] );
                for( std::size_t i = 0; i < len; ++i ) input.push_back( alpha[ rnd.below( alpha.size() ) ] );
+               pre = npre;
             }
             ++n;
             if( !V.begin_case( "C03", g.profile, input.data(), input.size() ) ) continue;
